@@ -88,7 +88,9 @@ def call_clause_native(f, ns):
 def native_check(con, fn, args, tag=None):
     """run the real function on concrete args and evaluate the executable contract.
     returns None (holds / precondition not met) or a dict describing the violated clause."""
-    tag = tag or f"{con.prop}/{con.target}"
+    from .verify import contract_tag
+
+    tag = tag or contract_tag(con)
     ns = {k: copy.deepcopy(v) for k, v in args.items()}
     try:
         for f in con.clause_list("requires"):
